@@ -112,7 +112,16 @@ func closeMix(steps []string, rng *rand.Rand, follow []string) []string {
 		cut = rng.Intn(len(steps) + 1)
 	}
 	out := append([]string{}, steps[:cut]...)
-	out = append(out, "sclose")
+	// every other time a connection attempt is in progress when the socket is closed and completes afterwards
+	// ("whatever was in progress at the time"): the closed protocol refuses what arrives (drivers that have no dialer
+	// of this kind ignore the two steps)
+	if rng.Intn(2) == 0 {
+		at := rng.Intn(len(out) + 1)
+		out = append(out[:at], append([]string{"predial"}, out[at:]...)...)
+		out = append(out, "sclose", "ansconn")
+	} else {
+		out = append(out, "sclose")
+	}
 	out = append(out, follow...)
 	return out
 }
